@@ -7,6 +7,8 @@ mod util;
 
 mod c01;
 mod c02;
+mod c03;
+mod c04;
 mod c09;
 mod tree;
 mod c14;
@@ -34,6 +36,8 @@ fn scenarios(prop: &str, tier: &str) -> Vec<Scenario> {
     match prop {
         "C01" => c01::scenarios(tier),
         "C02" => c02::scenarios(tier),
+        "C03" => c03::scenarios(tier),
+        "C04" => c04::scenarios(tier),
         "C09" => c09::scenarios(tier),
         "C14" => c14::scenarios(tier),
         "C15" => c15::scenarios(tier),
